@@ -31,7 +31,9 @@ pub open spec fn hex_digit(d: u64) -> char { if d < 10 { (0x30 + d) as char } el
 pub open spec fn hex4(n: u64) -> Seq<char> { seq![hex_digit((n / 0x1000) % 16), hex_digit((n / 0x100) % 16), hex_digit((n / 0x10) % 16), hex_digit(n % 16)] }
 pub uninterp spec fn hex_long(n: u64) -> Seq<char>;
 pub open spec fn hex_min4_text(n: u64) -> Seq<char> { if n <= 0xFFFF { hex4(n) } else { hex_long(n) } }
-pub broadcast axiom fn axiom_hex_long(n: u64) requires n > 0xFFFF ensures (#[trigger] hex_long(n)).len() >= 5;
+pub open spec fn is_hex_char(c: char) -> bool { ('0' <= c && c <= '9') || ('a' <= c && c <= 'f') || ('A' <= c && c <= 'F') }
+pub open spec fn all_hex(s: Seq<char>) -> bool { forall|i: int| 0 <= i < s.len() ==> is_hex_char(#[trigger] s[i]) }
+pub broadcast axiom fn axiom_hex_long(n: u64) requires n > 0xFFFF ensures (#[trigger] hex_long(n)).len() >= 5, all_hex(hex_long(n));
 
 #[verifier::external_body]
 pub fn lit<W: std::fmt::Write>(f: &mut W, s: &str) -> (r: std::fmt::Result)
